@@ -25,7 +25,7 @@ ASSUMPTIONS = ['not every source comment has to be captured (documented limitati
                'flagged; where a comment is re-emitted is free as long as the re-parse agrees',
                'the "ES5 parser reads the output as the same tree" clause uses refjs on inputs refjs reads as the same tree']
 BUDGET_S = {'quick': 70, 'thorough': 900}
-REQUIRED_HITS = ['parse_pair', 'comment_audited', 'pretty_roundtrip']
+REQUIRED_HITS = ['parse_pair', 'comment_audited', 'pretty_roundtrip', 'keyword_property_comments']
 FLOOR = {'quick': 1500, 'thorough': 20000}
 
 
@@ -370,6 +370,23 @@ def run(ctx):
         if ctx.out_of_time():
             break
     progs.report()
+    # comments on both sides of one token: reserved words as property names (where they are plain names: no
+    # restricted production, no regex after them), with what follows them on the same or the next line
+    words = ['return', 'throw', 'break', 'continue', 'if', 'in', 'new', 'typeof', 'function', 'get', 'catch', 'x']
+    gaps = ['', ' /*c*/ ', '/*c\n*/', ' //c\n', '\n', '/**/']
+    follows = ['(1)', '.b', ' = 1', '[0]', '++', ' / 2', '', '\n(1)', ' ? 1 : 2']
+    idx = 0
+    for w in words:
+        for g1 in gaps:
+            for g2 in gaps:
+                if not (g1 or g2):
+                    continue
+                for f in follows:
+                    idx += 1
+                    if idx % ctx.nshards != ctx.shard or (ctx.tier == 'quick' and (idx // ctx.nshards) % 3):
+                        continue
+                    check(ctx, 'x = a.%s%s%s%s;' % (g1, w, g2, f), 'keyword_property_comments')
+                    ctx.hit('keyword_property_comments')
 
 
 def replay(ctx, witness):
